@@ -1133,7 +1133,9 @@ tp_shutdown(tp_p tp) {
 	for (size_t i = 0; i < tp->s.threads_max; i ++) {
 		if (0 == tpt_is_running(&tp->threads[i]))
 			continue;
-		tpt_msg_send(&tp->threads[i], NULL, 0,
+		/* If the queue refuses the message (full): mark the thread as
+		 * stopping directly, it is awake or not yet in its loop. */
+		tpt_msg_send(&tp->threads[i], NULL, TP_MSG_F_FAIL_DIRECT,
 		    tpt_msg_shutdown_cb, NULL);
 	}
 }
@@ -1291,7 +1293,9 @@ tp_thread_proc(void *data) {
 	}
 
 	tpt->tp->threads_cnt ++;
-	tpt->state = TP_THREAD_STATE_RUNNING;
+	if (TP_THREAD_STATE_STARTING == tpt->state) { /* Keep STOPING set by tp_shutdown(). */
+		tpt->state = TP_THREAD_STATE_RUNNING;
+	}
 
 	snprintf(thr_name, sizeof(thr_name), "%s: %zu",
 	    tpt->tp->s.name, tpt->thread_num);
